@@ -10,6 +10,7 @@ go:  `<sx> @@ <obs interp> @@ <obs vm> @@ <obs vm+peephole>`,  obs = `<outcome>|
 
 Direct oracles (independent of the model, judged first):
   * `engines-differ`      interpreter observation ≠ VM observation
+  * `call-depth-counts-argument-nesting` (known finding) see `judgeObs`
   * `peephole-differs`    VM observation ≠ VM + peephole observation
                           (an engine that does not come back within its time bound is observed as `hang|`)
   * `order`               the ids `"#k"` (k ≤ max) in the interpreter's log are not strictly increasing
@@ -88,9 +89,13 @@ def programHasUnboxedCond (p : Program) : Bool :=
   p.structs.any fun sd => sd.methods.any (·.body.any stmtHasUnboxedCond) ||
     (match sd.init with | some (_, b) => b.any stmtHasUnboxedCond | none => false)
 
-def judge (op : List String) (go : String) : Verdict :=
-  match go.splitOn " @@ " with
-  | [sx, oi, ov, oo] =>
+def isPrefixOf : List String → List String → Bool
+  | [], _ => true
+  | _ :: _, [] => false
+  | a :: as, b :: bs => a == b && isPrefixOf as bs
+
+/-- `shapes` = the fifth part of the Go result (`shapes=<s,…>`, only for ops with `depth=<limit>`). -/
+def judgeObs (op : List String) (sx oi ov oo : String) (shapes : List String) : Verdict :=
     let forms := (field op "forms").splitOn ","
     let maxId := (field op "max").toNat?.getD 0
     let once := ((field op "once").splitOn ",").filterMap (·.toNat?)
@@ -105,7 +110,19 @@ def judge (op : List String) (go : String) : Verdict :=
       if sx.startsWith "oof:" then sx.endsWith oofFlag
       else ((readProgram sx).map programHasUnboxedCond).getD false
     let sx := if sx.startsWith "oof:" && sx.endsWith oofFlag then (sx.dropEnd oofFlag.length).toString else sx
-    if oi ≠ ov && ov == oo && unboxedCond then
+    /- Known finding `call-depth-counts-argument-nesting` (ops with a configured stack-depth limit):
+    the interpreter's limiter counts every invocation expression from before its arguments are
+    evaluated, native functions included; the VM counts call frames of compiled functions.  The
+    interpreter therefore reaches the limit first: it reports the call-depth error, the VM (with and
+    without peephole) got at least as far (the interpreter's log is a prefix of the VM's), and the
+    program contains a call inside an argument of a call or a call of a native function. -/
+    let depthLim := (field op "depth").toNat?.getD 0
+    let (outV, logsV) := parseObs ov
+    let depthCounting := depthLim > 0 && oi ≠ ov && ov == oo && outI == "user:call-depth"
+      && outV != "hang" && isPrefixOf logsI logsV && !shapes.isEmpty
+    if depthCounting then
+      .violation "call-depth-counts-argument-nesting" ("vm observation = interpreter observation = " ++ oi) (shapes ++ tags0)
+    else if oi ≠ ov && ov == oo && unboxedCond then
       .violation "conditional-result-not-boxed" ("vm observation = interpreter observation = " ++ oi) tags0
     else if oi ≠ ov then .violation "engines-differ" ("vm observation = interpreter observation = " ++ oi) tags0
     else if ov ≠ oo then .violation "peephole-differs" ("vm+peephole observation = vm observation = " ++ ov) tags0
@@ -116,6 +133,8 @@ def judge (op : List String) (go : String) : Verdict :=
     else if sx.startsWith "oof:" then .skip ("out-of-fragment:" ++ (sx.drop 4).toString)
     else if sx.startsWith "reject:" then .skip "rejected-by-checker"
     else if outI.startsWith "user:computation-limit" then .skip "computation-limit"
+    -- the model has no stack-depth limit
+    else if depthLim > 0 && outI == "user:call-depth" then .skip "configured-depth-limit-reached"
     else
       match readProgram sx with
       | none => .skip "sx-unreadable"
@@ -134,6 +153,13 @@ def judge (op : List String) (go : String) : Verdict :=
             if vtag == "model-internal" || vtag == "model-out-of-fuel" then .modelDiff ("vm-model:" ++ mv) (tag :: tags0)
             else if mv == ov then .ok ("!nt" :: "vm-model" :: tag :: tags0)
             else .modelDiff ("vm-model:" ++ mv) ("vm-model" :: tag :: tags0)
+
+def judge (op : List String) (go : String) : Verdict :=
+  match go.splitOn " @@ " with
+  | [sx, oi, ov, oo] => judgeObs op sx oi ov oo []
+  | [sx, oi, ov, oo, sh] =>
+    if sh.startsWith "shapes=" then judgeObs op sx oi ov oo (((sh.drop 7).toString.splitOn ",").filter (· ≠ ""))
+    else .skip "bad-go-result"
   | _ =>
     -- the harness reports an escaped Go panic of the whole operation as `panic`, a run that did not
     -- come back within the per-operation timeout as `hang` (every run has a computation limit)
